@@ -10,9 +10,13 @@ static std::string oracle(const Case& c) {
     deps::Kit& k = deps::kit(0); k.reset_all(); Evidence& ev = W().ev;
     uint64_t t = c.u("t"); std::string sec = c.bytes("secret"); sec.resize(19, '\0');
     k.rand_bytes.assign(sec.begin(), sec.end()); k.clock = t; polyseed_enable_features(7);
+    // optionally the clock answers t only on its first reading and a failure value afterwards (a transient time() error):
+    // the birthday must still be the one of a delivered reading
+    if (c.u("flaky")) { k.clock_seq = {t, c.u("flaky") == 1 ? UINT64_MAX : c.u("flaky") == 2 ? 0 : model::EPOCH - 1}; }
     lib::SeedPtr s; int st = polyseed_create((unsigned)c.u("ufeat") & 7u, s.out()); if (st != 0) { s.p = nullptr; return std::string("create returned ") + model::status_name(st); }
     if (k.time_calls < 1) return "create did not consult the injected clock";
     uint64_t B = polyseed_get_birthday(s);
+    if (c.u("flaky")) { bool ok = false; for (uint64_t r : k.clock_given) if (B == model::birthday_time(model::birthday_index(r))) ok = true; k.clock_seq.clear(); if (!ok) return "the clock was read " + std::to_string(k.clock_given.size()) + " times (first reading " + std::to_string(t) + ", later readings a failure value) and the birthday " + std::to_string(B) + " is that of none of the readings"; if (k.clock_given.size() > 1) ev.count("clock-read-more-than-once"); if (B != model::birthday_time(model::birthday_index(t))) { ev.count("flaky-clock:other-reading-used"); s.reset(); ev.eval(); return ""; } }
     const uint64_t E = model::EPOCH, S = model::STEP, END = E + 1024 * S;
     if (B < E || (B - E) % S != 0 || (B - E) / S > 1023) return "birthday " + std::to_string(B) + " is not epoch + k*2629746 with k in 0..1023 (t=" + std::to_string(t) + ")";
     std::string cls;
@@ -55,7 +59,7 @@ static void run() {
         uint64_t t = *rc::gen::weightedOneOf<uint64_t>({{4, rc::gen::map(vf::u64(), [](uint64_t x) -> uint64_t { return model::EPOCH + x % (1024 * model::STEP); })}, {2, vf::u64()},
             {2, rc::gen::map(rc::gen::pair(in_range<uint64_t>(0, 1026), in_range<int>(-2, 3)), [](std::pair<uint64_t, int> p) -> uint64_t { return model::EPOCH + p.first * model::STEP + (uint64_t)(int64_t)p.second; })},
             {1, rc::gen::map(vf::u64(), [](uint64_t x) -> uint64_t { return x % model::EPOCH; })}, {1, rc::gen::map(vf::u64(), [](uint64_t x) -> uint64_t { return model::EPOCH + 1024 * model::STEP + x % (1ull << 40); })}, {1, rc::gen::element<uint64_t>(UINT64_MAX, UINT64_MAX - 1, 0, model::EPOCH, model::EPOCH - 1)}});
-        Case c; c.set("t", t); c.set("secret", hex(*g::secret19())); c.set("ufeat", *in_range<unsigned>(0, 8)); c.set("chain", hex(*rc::gen::resize(10, rc::gen::container<std::vector<uint8_t>>(rc::gen::resize(100, rc::gen::inRange<uint8_t>(0, 4)))))); c.set("lang", REG->at(*g::lang_index()).name_en); c.set("coin", (uint64_t)*g::coin());
+        Case c; c.set("t", t); c.set("secret", hex(*g::secret19())); c.set("ufeat", *in_range<unsigned>(0, 8)); c.set("chain", hex(*rc::gen::resize(10, rc::gen::container<std::vector<uint8_t>>(rc::gen::resize(100, rc::gen::inRange<uint8_t>(0, 4)))))); c.set("lang", REG->at(*g::lang_index()).name_en); c.set("coin", (uint64_t)*g::coin()); if (*in_range<int>(0, 8) == 0) c.set("flaky", *in_range<unsigned>(1, 4));
         set_current(c); std::string m = oracle(c); if (!m.empty()) VF_FAIL(c, m);
     });
 }
